@@ -84,3 +84,39 @@ chk("C19", "model_checking",
     "All multigraphs on up to 4 (quick) / 5 (thorough) modules with parallel chains, self chains, the first chain routed directly / through one transit gate on each module / through 15 transit gates (16 hops). Global view, connected, bidirectional, spanned from every root, dijkstra from every source (first edge of a BFS-minimal path), filter_nodes for every subset, filter_edges for every single edge.",
     "Chains longer than 16 hops are outside the supported range.",
     "DESIGN.md section 4, C19")
+
+chk("C04", "exploration",
+    "complete grid of generated models x seeds, each executed twice per process and in two worker processes, full-trace comparison",
+    "32 generated models (4 topologies incl. an NDL-built cluster network and a star with submodules and a gate cluster; channel jitter; restart at a random-drawn time; interval/sample tasks) x 5 seeds incl. VERIF_SEED (17 thorough). Every module draws random() in handlers and tasks, runs an unbiased 4-way select! over equal deadlines and a receive and sends over random subsets of gates. Each (model, seed) is run by two different worker processes, twice in each (the second time after other simulations ran); all four complete traces must be identical, and different seeds must give different traces (vacuity guard).",
+    "Exhaustive over the stated grid only ('all seeds' and 'all models' are unbounded). The trace holds what the statement lists (times, module paths, callbacks, message kind/id, drawn values, select branches, final time, event count, result), not raw ids or addresses.",
+    "DESIGN.md section 4, C04")
+
+chk("C06", "exploration",
+    "complete grid of wake-up pattern x trigger x spawn kind x number of runnable tasks on a real simulation; findings matched by predicates over the case",
+    "12 patterns (N sleepers on one deadline, oneshot chain, Notify, Semaphore, broadcast, one task draining N messages, handler spawning N tasks, join of N handles, start stage, restart, timer-then-notify chain, yield) x tokio::spawn / spawn_local x every N in 1..70 plus 100, 127..130, 200, 500, 1000 (thorough 2000, 5000). Every task logs the simulated time right after its await, which must equal the enabling instant; all awaited conditions must be observed; a bystander module's trace must be unchanged. Two documented findings (KNOWN_FINDINGS.json) are matched by predicates over the case, everything else is a violation.",
+    "Grid exhaustive, not 'thousands of tasks' in general. A failing case is classified from its inputs only (spawn kind, polls needed, budgeted operations per poll, explicit yield).",
+    "DESIGN.md section 4, C06")
+
+chk("C09", "model_checking",
+    "complete enumeration of shutdown/restart timelines on a real 3-module simulation against an expectation computed from the plan by interval logic",
+    "Shutdown time x restart delay (none, 0, 2, 5) x requested from handler / task x old task deadline x new task sleep x second cycle (4 variants) x route (to the victim / through its transit gate) x direct / latency channel x every set of up to 2 (quick) / 3 (thorough) message arrival times out of 10, plus shutdown requested in each of 3 start stages. No callback, task step or timer of the victim inside an inert window, messages inside it dropped and never delivered later, reset once per shutdown, start stages once at exactly the restart time, old tasks never resume and their captures are dropped, the peer receives exactly the echoes.",
+    "An event at exactly the shutdown/restart instant is a tie and accepted either way. Old self-scheduled messages arriving after the restart are delivered (not flagged).",
+    "DESIGN.md section 4, C09")
+
+chk("C13", "fault_enumeration",
+    "enumeration of every panic placement (module x callback x occurrence, singles and pairs) x stereotypes, differential against the real run in which the faulty module shuts down at the same point",
+    "Panics in start stage 0/1, the 1st/2nd/3rd/5th message, tear-down and a joined task of one or two of four modules, each with catching or non-catching stereotype (288 placements). run() must return; the healthy modules' complete traces must equal those of the silent variant; a module that panicked in a callback must not be activated again before tear-down; the error must name exactly the non-catching panicking modules; a clean follow-up simulation in the same process must reproduce the clean trace.",
+    "Joined-task panics: only the unambiguous part is asserted (see DESIGN.md C13). Tear-down of a panicked module (at_sim_end and the task polling it implies) is not counted as a wake-up.",
+    "DESIGN.md section 4, C13")
+
+chk("C14", "model_checking",
+    "complete enumeration of processing stacks (global x per-module, append/replace) x element behaviours on a real simulation; expected call log computed directly",
+    "Every global stack of up to 3 (quick) / 4 (thorough) and per-module stack of up to 2 / 3 elements over six behaviours (pass, modify, consume kind 1 / 2, send on event_start / event_end); the module sees a start stage, two messages, a timer wake-up and tear-down. The complete call log (event_start in order, incoming until consumed, handler iff not consumed, event_end reversed, emitted messages in program order at a sink) must equal the bracket structure.",
+    "Panicking elements and stacks changed at run time are outside the alphabet.",
+    "DESIGN.md section 4, C14")
+
+chk("C20", "model_checking",
+    "complete enumeration of generated simulations x stopping points x drop orders with per-kind live-object counters; reference simulation after every case and across worker processes",
+    "96 (quick) / 192 (thorough) generated simulations (3 queue policies, blocked tasks, restarted transit module, panicking receiver, bursts, processing elements; parent/child modules and a ring of busy channels through a transit gate) x every stopping point: builder dropped, built, started and stepped 0..6/12 events, max_itr(k) for every k in both drop orders, 11 time limits. After the last handle is gone every module state, task capture, message body and processing element must have been dropped exactly once; then a reference simulation must reproduce its baseline trace (identical in all worker processes).",
+    "User-level reference cycles are outside the alphabet.",
+    "DESIGN.md section 4, C20")
